@@ -19,3 +19,5 @@ m["check_output"]=[l[:300] for l in log.splitlines() if l.startswith(("VIOLATION
 json.dump(m,open(f"{dst}/meta.json","w"),indent=1)
 print(dst, "rc=",rc, m["check_output"][-2:] if m["check_output"] else log[-300:])
 PY
+# free the disk: the worktree (with its multi-GB target dir) is no longer needed
+git -C /repo worktree remove --force "/tmp/seed-$id-$n" 2>/dev/null; rm -rf "/tmp/seed-$id-$n"; git -C /repo worktree prune
